@@ -5,6 +5,7 @@ import (
 	"go/constant"
 	"go/token"
 	"go/types"
+	"math/big"
 	"sort"
 	"strings"
 
@@ -581,6 +582,9 @@ func (b *Builder) of1(v ssa.Value, at ssa.Instruction, depth int) *Term {
 		}
 		return b.mk("un", x.Op.String(), v, b.of(x.X, at, depth+1))
 	case *ssa.Phi:
+		if t := b.logicalPhi(x, at, depth); t != nil {
+			return t
+		}
 		if init, step, ok := inductionPhi(x); ok {
 			return b.mk("ind", step, v, b.of(init, at, depth+1))
 		}
@@ -621,7 +625,7 @@ func (b *Builder) of1(v ssa.Value, at ssa.Instruction, depth int) *Term {
 		if x.Max != nil {
 			args = append(args, b.of(x.Max, at, depth+1))
 		}
-		return b.mk("slice", "", v, args...)
+		return canonSlice(b.mk("slice", "", v, args...))
 	case *ssa.IndexAddr:
 		return b.mk("iaddr", "", v, b.of(x.X, at, depth+1), b.of(x.Index, at, depth+1))
 	case *ssa.Index:
@@ -654,6 +658,61 @@ func (b *Builder) of1(v ssa.Value, at ssa.Instruction, depth int) *Term {
 		return b.mk("select", "", v)
 	}
 	return b.mk("unknown", fmt.Sprintf("%T", v), v)
+}
+
+// logicalPhi recognises the phi go/ssa builds for a short-circuit `a && b` /
+// `a || b` used as a value (e.g. a case of a tagless switch) and returns
+// and(a, b, …) / or(a, b, …); nil for any other phi.
+func (b *Builder) logicalPhi(x *ssa.Phi, at ssa.Instruction, depth int) *Term {
+	if x.Comment != "&&" && x.Comment != "||" || len(x.Edges) < 2 {
+		return nil
+	}
+	isAnd := x.Comment == "&&"
+	blk := x.Block()
+	var ops []*Term
+	n := len(x.Edges)
+	for i := 0; i < n-1; i++ {
+		c, ok := x.Edges[i].(*ssa.Const)
+		if !ok || c.Value == nil || c.Value.Kind() != constant.Bool || constant.BoolVal(c.Value) == isAnd {
+			return nil
+		}
+		pred := blk.Preds[i]
+		ifi, ok := pred.Instrs[len(pred.Instrs)-1].(*ssa.If)
+		if !ok {
+			return nil
+		}
+		k := 0
+		if pred.Succs[1] == blk {
+			k = 1
+		} else if pred.Succs[0] != blk {
+			return nil
+		}
+		lit := b.of(ifi.Cond, at, depth+1)
+		// short-circuit to this phi happens when cond == (k==0); for && the operand is then false, for || true
+		operandTrueWhenCond := (k == 0) != isAnd // && : operand false on short-circuit
+		if !operandTrueWhenCond {
+			lit = Negate(lit)
+		}
+		for lit.Op == "un" && lit.Name == "!" && len(lit.Args) == 1 && lit.Args[0].Op == "un" && lit.Args[0].Name == "!" {
+			lit = lit.Args[0].Args[0]
+		}
+		ops = append(ops, lit)
+	}
+	ops = append(ops, b.of(x.Edges[n-1], at, depth+1))
+	name := "or"
+	if isAnd {
+		name = "and"
+	}
+	// flatten
+	var flat []*Term
+	for _, o := range ops {
+		if o.Op == name {
+			flat = append(flat, o.Args...)
+		} else {
+			flat = append(flat, o)
+		}
+	}
+	return b.mk(name, "", x, flat...)
 }
 
 // inductionPhi recognises phi(init, phi±c): a counter with constant step.
@@ -742,7 +801,111 @@ func (b *Builder) callTerm(v ssa.Value, c *ssa.CallCommon, depth int) *Term {
 	if name == "dynamic" {
 		args = append([]*Term{b.of(c.Value, at, depth+1)}, args...)
 	}
-	return &Term{Op: "call", Name: name, V: v, Args: args}
+	return canonCall(&Term{Op: "call", Name: name, V: v, Args: args})
+}
+
+// canonCall maps standard-library calls that are equal by their documentation
+// to one representative (the spelling of the pinned tree).
+func canonCall(t *Term) *Term {
+	arg := func(i int) *Term {
+		if i < len(t.Args) {
+			return t.Args[i]
+		}
+		return nil
+	}
+	switch t.Name {
+	case "strings.LastIndexByte", "strings.IndexByte", "bytes.IndexByte", "bytes.LastIndexByte":
+		// IndexByte(s, c) == Index(s, string(c)) for an ASCII constant c
+		if c, ok := isConstInt(arg(1)); ok && c.Sign() >= 0 && c.Cmp(big.NewInt(128)) < 0 && strings.HasPrefix(t.Name, "strings.") {
+			lit := constant.MakeString(string(rune(c.Int64())))
+			nm := strings.TrimSuffix(t.Name, "Byte")
+			return &Term{Op: "call", Name: nm, V: t.V, Args: []*Term{t.Args[0], {Op: "const", Name: lit.ExactString(), C: lit}}}
+		}
+	case "(hash.Hash).Sum":
+		// Sum(b) appends to b: with an empty b the result is the digest, as with nil
+		if a := arg(1); a != nil && isEmptySlice(a) {
+			return &Term{Op: "call", Name: t.Name, V: t.V, Args: []*Term{t.Args[0], {Op: "nil"}}}
+		}
+	case "strconv.FormatInt":
+		if ten, ok := isConstInt(arg(1)); ok && ten.Cmp(big.NewInt(10)) == 0 {
+			if a := arg(0); a.Op == "conv" && len(a.Args) == 1 {
+				if bits, signed, ok := intKind(termType(a.Args[0])); ok && signed && bits == 0 {
+					return &Term{Op: "call", Name: "strconv.Itoa", V: t.V, Args: []*Term{a.Args[0]}}
+				}
+			}
+		}
+	case "strings.FieldsFunc":
+		if f := arg(1); f != nil && f.Op == "func" && f.Name == "unicode.IsSpace" {
+			return &Term{Op: "call", Name: "strings.Fields", V: t.V, Args: []*Term{t.Args[0]}}
+		}
+	}
+	return t
+}
+
+// digestSizes: constructors of fixed-size hashes.
+var digestSizes = map[string]int64{"crypto/sha512.New": 64, "crypto/sha256.New": 32, "crypto/sha1.New": 20, "crypto/sha512.New512_256": 32, "crypto/sha512.New384": 48}
+
+// canonSlice: `var d [N]byte; h.Sum(d[:0]); d[:]` holds the digest exactly like
+// h.Sum(nil) when N is the digest size of h; the whole-array slice of such a
+// buffer becomes call<(hash.Hash).Sum>(h, nil).
+func canonSlice(t *Term) *Term {
+	if len(t.Args) != 3 {
+		return t
+	}
+	base := t.Args[0]
+	if base.Op != "obj" || len(base.Args) != 2 || base.Args[0].Op != "alloc" {
+		return t
+	}
+	ev := base.Args[1]
+	if ev.Op != "call" || ev.Name != "(hash.Hash).Sum" || len(ev.Args) != 2 {
+		return t
+	}
+	dst := ev.Args[1]
+	if dst.Op != "slice" || len(dst.Args) != 3 || dst.Args[0].Op != "self" {
+		return t
+	}
+	if lo, ok := isConstInt(dst.Args[1]); !ok || lo.Sign() != 0 {
+		return t
+	}
+	if hi, ok := isConstInt(dst.Args[2]); !ok || hi.Sign() != 0 {
+		return t
+	}
+	h := ev.Args[0]
+	ctor := h
+	if ctor.Op == "obj" && len(ctor.Args) > 0 {
+		ctor = ctor.Args[0]
+	}
+	n, known := digestSizes[ctor.Name]
+	if ctor.Op != "call" || !known || base.Args[0].Name != fmt.Sprintf("[%d]byte", n) && base.Args[0].Name != fmt.Sprintf("[%d]uint8", n) {
+		return t
+	}
+	if lo, ok := isConstInt(t.Args[1]); !ok || lo.Sign() != 0 {
+		return t
+	}
+	if hi, ok := isConstInt(t.Args[2]); t.Args[2].Op != "none" && (!ok || hi.Int64() != n) {
+		return t
+	}
+	return &Term{Op: "call", Name: "(hash.Hash).Sum", V: ev.V, Args: []*Term{h, {Op: "nil"}}}
+}
+
+func isEmptySlice(t *Term) bool {
+	base := t
+	if base.Op == "obj" && len(base.Args) > 0 {
+		base = base.Args[0]
+	}
+	switch base.Op {
+	case "makeslice":
+		if n, ok := isConstInt(base.Args[0]); ok && n.Sign() == 0 {
+			return true
+		}
+	case "slice":
+		if len(base.Args) >= 3 {
+			if hi, ok := isConstInt(base.Args[2]); ok && hi.Sign() == 0 {
+				return true
+			}
+		}
+	}
+	return false
 }
 
 // CallTermAt is the term of a call instruction (also for go/defer).
@@ -778,6 +941,10 @@ func (b *Builder) objAt(v ssa.Value, at ssa.Instruction, depth int) *Term {
 	switch r := root.(type) {
 	case *ssa.Alloc:
 		base = &Term{Op: "alloc", Name: typeName(r.Type().(*types.Pointer).Elem()), V: r}
+		if base.Name == "filippo.io/edwards25519.Scalar" {
+			// new(edwards25519.Scalar) and edwards25519.NewScalar() are both the zero scalar (documented: "the zero value is a valid zero element")
+			base = &Term{Op: "call", Name: "filippo.io/edwards25519.NewScalar", V: r}
+		}
 	case *ssa.Call:
 		base = b.callTerm(r, &r.Call, depth+1)
 	default:
